@@ -33,7 +33,7 @@ RULE = ("cases are drawn from random.Random(VERIF_SEED). Scalar handles: every o
         "the bound itself, data values typical for the loss and arbitrary reals, every listed parameter choice incl. "
         "both Huber regions and the kink). Tensor level: Kruskal models of order 2..4 (order 1 for the rejected "
         "cases), mode sizes 1..3 (4 in thorough), ranks 1..3, integer entries of both signs with zeros, unit and "
-        "non-unit model weights, weight arrays none / ones / 0-1 masks / integers / halves, sparse and dense data, "
+        "non-unit model weights (negative, zero and fractional ones too), weight arrays none / ones / 0-1 masks / integers / halves, sparse and dense data, "
         "sample sets of 0..8 (12) subscripts with repeats, correction ranges with repeats, three polynomial stand-in "
         "handle pairs, every combination of requested outputs, and a malformed stream (mismatched shapes, no handle, "
         "out-of-range subscripts). A case is non-trivial when the implementation accepts it and at least one data / "
@@ -461,7 +461,7 @@ def gen_model(rng, tier, nmin=2, nmax=4, unit=None):
     factors = [gen.matrix(rng, s, R, -3, 3, 0.2) for s in shape]
     if unit is None:
         unit = rng.random() < 0.6
-    weights = [1] * R if unit else [rng.choice([-2, -1, 2, 3, 1]) for _ in range(R)]
+    weights = [1] * R if unit else [rng.choice([-2, -1, 0, 2, 3, 1, jnum(Fraction(1, 2))]) for _ in range(R)]
     return shape, {"weights": weights, "factors": factors}
 
 
@@ -480,7 +480,7 @@ def to_float_list(vals):
 
 
 def mk_k(K):
-    return gen.mk_ktensor(ttb, K["weights"], K["factors"])
+    return gen.mk_ktensor(ttb, to_float_list(K["weights"]), K["factors"])
 
 
 def fg_canon(res, wantF, wantG):
@@ -569,7 +569,9 @@ class EvaluateCorr(Family):
         for c, impl, mo in zip(cases, impls, models):
             shape = c["K"]["factors"] and [len(f) for f in c["K"]["factors"]]
             unit = all(w == 1 for w in c["K"]["weights"])
+            lam = [Fraction(w) for w in c["K"]["weights"]]
             tags = [f"N{len(shape)}", f"R{len(c['K']['weights'])}", "W:" + c["wk"], "unitλ" if unit else "λ≠1",
+                    *(["λ<0"] if any(w < 0 for w in lam) else []), *(["λ=0"] if any(w == 0 for w in lam) else []),
                     ("F" if c["wantF"] else "") + ("G" if c["wantG"] else ""), "sparseX" if c.get("sparseX") else "denseX"]
             if c["bad"]:
                 tags.append("bad:" + c["bad"])
@@ -593,16 +595,15 @@ class EvaluateCorr(Family):
                                     impl, mo, jnum(tot), tags, nt)
                 # gradient entry = exact partial derivative of the implementation's own objective:
                 # the objective is a polynomial of degree <= 3 in one factor entry, so the 5-point
-                # stencil with step 1 is exact.  (unit model weights: see C12_gradient_is_partial_derivative)
-                if v.status == "ok" and c.get("probe") and unit:
+                # stencil with step 1 is exact.  Any model weights (C12_gradient_is_partial_derivative).
+                if v.status == "ok" and c.get("probe"):
                     k, a, r = c["probe"]
                     vals = []
                     for dt in (2, 1, -1, -2):
                         K2 = {"weights": c["K"]["weights"], "factors": [[list(row) for row in fm] for fm in c["K"]["factors"]]}
                         K2["factors"][k][a][r] += dt
                         o = call(self._impl, c, K2, True, False)
-                        vals.append(Fraction(o["ok"]["F"]) if "ok" in o and isinstance(o["ok"]["F"], int)
-                                    else (Fraction(*map(int, o["ok"]["F"].split("/"))) if "ok" in o else None))
+                        vals.append(Fraction(o["ok"]["F"]) if "ok" in o else None)
                     if None not in vals:
                         d = (-vals[0] + 8 * vals[1] - 8 * vals[2] + vals[3]) / 12
                         got = impl["ok"]["G"][k][a][r]
@@ -640,8 +641,11 @@ class AllModes(Family):
             N = rng.randint(2, 4)
             shape = gen.shape(rng, N, N, 3 if (tier == "quick" or N == 4) else 4, distinct=rng.random() < 0.7)
             R = rng.randint(1, 3)
+            lam = None
+            if rng.random() < 0.5:  # a Kruskal operand: its weights scale the columns of every result
+                lam = [rng.choice([-2, -1, 0, 1, 2, 3, jnum(Fraction(1, 2))]) for _ in range(R)]
             out.append({"T": {"shape": shape, "data": gen.dense_data(rng, shape, 0.25)},
-                        "U": [gen.matrix(rng, s, R, -3, 3, 0.2) for s in shape], "R": R})
+                        "U": [gen.matrix(rng, s, R, -3, 3, 0.2) for s in shape], "R": R, "weights": lam})
         return out
 
     def evaluate(self, cases):
@@ -652,18 +656,21 @@ class AllModes(Family):
             def run(c=c, N=N):
                 T = gen.mk_tensor(ttb, c["T"]["shape"], c["T"]["data"])
                 U = [np.array(u, dtype=float).reshape(len(u), c["R"]) for u in c["U"]]
+                if c.get("weights") is not None:
+                    U = ttb.ktensor(U, np.array(to_float_list(c["weights"])))
                 return {"all": [jval(np.asarray(g)) for g in T.mttkrps(U)],
                         "each": [jval(np.asarray(T.mttkrp(U, k))) for k in range(N)]}
             impls.append(call(run))
             for k in range(N):
-                reqs.append({"op": "gcp_mttkrp", "T": c["T"], "U": c["U"], "R": c["R"], "k": k})
+                reqs.append({"op": "gcp_mttkrp", "T": c["T"], "U": c["U"], "R": c["R"], "k": k,
+                             "weights": c.get("weights")})
         models = drive(reqs)
         out, pos = [], 0
         for c, impl in zip(cases, impls):
             N = len(c["T"]["shape"])
             mo = models[pos:pos + N]
             pos += N
-            tags = [f"N{N}", f"R{c['R']}"]
+            tags = [f"N{N}", f"R{c['R']}", "ktensor-operand" if c.get("weights") is not None else "matrix-list"]
             nt = any(v != 0 for v in c["T"]["data"])
             if "ok" not in impl:
                 out.append(Verdict("violation", "mttkrps / mttkrp raised", impl, mo, None, tags, False))
